@@ -498,8 +498,8 @@ class Interp:
                 return Bound(recv.ci, e.attr)
         if self._mentions_obj(e, env):
             v = UNKNOWN
-        elif self.hook is not None and isinstance(e, (ast.List, ast.Tuple, ast.Dict, ast.Set, ast.ListComp, ast.GeneratorExp, ast.SetComp, ast.DictComp)) and any(isinstance(x, ast.Call) for x in ast.walk(e)):
-            v = UNKNOWN  # calls inside a display / comprehension are evaluated one by one so that the rule's witnesses see them
+        elif self.hook is not None and isinstance(e, (ast.List, ast.Tuple, ast.Dict, ast.Set, ast.ListComp, ast.GeneratorExp, ast.SetComp, ast.DictComp, ast.IfExp, ast.BinOp, ast.BoolOp)) and any(isinstance(x, ast.Call) for x in ast.walk(e)):
+            v = UNKNOWN  # calls inside a display / comprehension / conditional are evaluated one by one so that the rule's witnesses see them
         else:
             v = self.ctx.folder.eval(e, self.module, env=env)
         if v is not UNKNOWN and not _has_unknown(v):
